@@ -14,7 +14,7 @@ import (
 //
 // A program is
 //
-//	load("m", "h")        # prefix: h is file-local (or global if LoadBindsGlobally)
+//	load("m", "h")        # prefix (items about h only): h is file-local (or global if LoadBindsGlobally)
 //	g = 0                  # prefix: g is a global
 //	<chain of up to 3 containers around one item of interest>
 //	later = 0              # suffix: a global bound after the item
@@ -35,6 +35,9 @@ const (
 	zzCIfElse               // if 1: pass / else: <stmts>
 	zzCForBody              // for vK in []: <stmts>
 	zzCWhileBody            // while 1: <stmts>
+	zzCAfterIf              // if 1: pass      followed, in the same block, by <stmts>
+	zzCAfterFor             // for uK in []: pass   followed by <stmts>
+	zzCAfterDef             // def fK(): pass  followed by <stmts>
 	zzCDefDefault           // def fK(p=<expr>): pass
 	zzCLambdaBody           // lambda: <expr>
 	zzCLambdaDefault        // lambda p=<expr>: p
@@ -44,7 +47,7 @@ const (
 	zzNContainers
 )
 
-func zzCHoldsStmts(c int) bool { return c <= zzCWhileBody }
+func zzCHoldsStmts(c int) bool { return c <= zzCAfterDef }
 
 // items of interest
 const (
@@ -163,29 +166,33 @@ func (g *zzGen) item(it int) (syntax.Stmt, syntax.Expr) {
 	panic("bad item")
 }
 
-// wrap puts the inner node into container c (k = nesting level, used for unique names).
-func (g *zzGen) wrap(c, k int, st syntax.Stmt, ex syntax.Expr, kwPos syntax.Position) (syntax.Stmt, syntax.Expr) {
+// wrap puts the inner node(s) into container c (k = nesting level, used for unique names).
+func (g *zzGen) wrap(c, k int, st []syntax.Stmt, ex syntax.Expr, kwPos syntax.Position) ([]syntax.Stmt, syntax.Expr) {
 	ks := strconv.Itoa(k)
-	stmts := func() []syntax.Stmt {
-		if st != nil {
-			return []syntax.Stmt{st}
-		}
-		return []syntax.Stmt{&syntax.ExprStmt{X: ex}}
+	if st == nil {
+		st = []syntax.Stmt{&syntax.ExprStmt{X: ex}}
 	}
+	one := func(s syntax.Stmt) []syntax.Stmt { return []syntax.Stmt{s} }
 	switch c {
 	case zzCDefBody:
-		return &syntax.DefStmt{Def: kwPos, Name: g.ident("f" + ks), Lparen: g.pos(), Rparen: g.pos(), Body: stmts()}, nil
+		return one(&syntax.DefStmt{Def: kwPos, Name: g.ident("f" + ks), Lparen: g.pos(), Rparen: g.pos(), Body: st}), nil
 	case zzCIfThen:
-		return &syntax.IfStmt{If: kwPos, Cond: g.lit(), True: stmts()}, nil
+		return one(&syntax.IfStmt{If: kwPos, Cond: g.lit(), True: st}), nil
 	case zzCIfElse:
-		return &syntax.IfStmt{If: kwPos, Cond: g.lit(), True: []syntax.Stmt{g.pass()}, ElsePos: g.pos(), False: stmts()}, nil
+		return one(&syntax.IfStmt{If: kwPos, Cond: g.lit(), True: one(g.pass()), ElsePos: g.pos(), False: st}), nil
 	case zzCForBody:
-		return &syntax.ForStmt{For: kwPos, Vars: g.ident("v" + ks), X: g.emptyList(), Body: stmts()}, nil
+		return one(&syntax.ForStmt{For: kwPos, Vars: g.ident("v" + ks), X: g.emptyList(), Body: st}), nil
 	case zzCWhileBody:
-		return &syntax.WhileStmt{While: kwPos, Cond: g.lit(), Body: stmts()}, nil
+		return one(&syntax.WhileStmt{While: kwPos, Cond: g.lit(), Body: st}), nil
+	case zzCAfterIf:
+		return append(one(&syntax.IfStmt{If: kwPos, Cond: g.lit(), True: one(g.pass())}), st...), nil
+	case zzCAfterFor:
+		return append(one(&syntax.ForStmt{For: kwPos, Vars: g.ident("u" + ks), X: g.emptyList(), Body: one(g.pass())}), st...), nil
+	case zzCAfterDef:
+		return append(one(&syntax.DefStmt{Def: kwPos, Name: g.ident("f" + ks), Lparen: g.pos(), Rparen: g.pos(), Body: one(g.pass())}), st...), nil
 	case zzCDefDefault:
 		par := &syntax.BinaryExpr{X: g.ident("p"), OpPos: g.pos(), Op: syntax.EQ, Y: ex}
-		return &syntax.DefStmt{Def: kwPos, Name: g.ident("f" + ks), Lparen: g.pos(), Params: []syntax.Expr{par}, Rparen: g.pos(), Body: []syntax.Stmt{g.pass()}}, nil
+		return one(&syntax.DefStmt{Def: kwPos, Name: g.ident("f" + ks), Lparen: g.pos(), Params: []syntax.Expr{par}, Rparen: g.pos(), Body: one(g.pass())}), nil
 	case zzCLambdaBody:
 		return nil, &syntax.LambdaExpr{Lambda: kwPos, Body: ex}
 	case zzCLambdaDefault:
@@ -236,19 +243,25 @@ func (g *zzGen) build(chain []int, item int, opts *syntax.FileOptions) *syntax.F
 	for range chain {
 		g.conPos = append(g.conPos, g.pos())
 	}
-	st, ex := g.item(item)
+	st1, ex := g.item(item)
+	var st []syntax.Stmt
+	if st1 != nil {
+		st = []syntax.Stmt{st1}
+	}
 	for k := len(chain) - 1; k >= 0; k-- {
 		st, ex = g.wrap(chain[k], k, st, ex, g.conPos[k])
 	}
 	if st == nil {
-		st = &syntax.ExprStmt{X: ex}
+		st = []syntax.Stmt{&syntax.ExprStmt{X: ex}}
 	}
-	stmts := []syntax.Stmt{
-		g.load("m", "h", g.pos(), g.pos()),
-		g.assign("g", syntax.EQ, g.pos()),
-		st,
-		g.assign("later", syntax.EQ, g.pos()),
+	var stmts []syntax.Stmt
+	if item == zzILoadLoaded || item == zzIAssignLoaded {
+		// (only where h is needed: every load makes the resolver read LoadBindsGlobally)
+		stmts = append(stmts, g.load("m", "h", g.pos(), g.pos()))
 	}
+	stmts = append(stmts, g.assign("g", syntax.EQ, g.pos()))
+	stmts = append(stmts, st...)
+	stmts = append(stmts, g.assign("later", syntax.EQ, g.pos()))
 	return &syntax.File{Path: g.file, Stmts: stmts, Options: opts}
 }
 
@@ -292,6 +305,10 @@ func zzReference(g *zzGen, chain []int, item int, o *syntax.FileOptions) zzVerdi
 			v.add(zzAnd(!inFunc, zzNot(o.TopLevelControl)), p)
 			loops++
 			nested = true
+		case zzCAfterIf, zzCAfterFor:
+			// a preceding sibling if/for: itself subject to the top-level rule, no effect on what follows
+			v.add(zzAnd(!inFunc, zzNot(o.TopLevelControl)), p)
+		case zzCAfterDef:
 		case zzCDefDefault:
 			nested = true // default values are evaluated in the enclosing block
 		case zzCLambdaBody:
@@ -350,8 +367,6 @@ func zzOptions() *syntax.FileOptions {
 		Recursion:         zzBool("opt_Recursion"),
 	}
 }
-
-func zzNoPredeclared(string) bool { return false }
 
 // zzCheckVerdict compares the resolver's answer with the reference.
 func zzCheckVerdict(err error, v zzVerdict, item int) {
